@@ -37,6 +37,9 @@ structure Cfg where
   createEnabled : Bool
   deleteIfExists : Bool
   policy : Policy
+  /-- every precondition's assertion evaluated to the boolean `true`; `false` for a false
+      assertion AND for one that evaluates to anything that is not a boolean (a text such as
+      "false", a number, a list — truthy or not): neither lets the function through -/
   precondPass : Bool
   /-- `create.overlay` is written in the spec (must not influence whether create is enabled) -/
   createOverlay : Bool
